@@ -102,8 +102,33 @@ def snapshot(obj):
     nattr = {n: copy.deepcopy(dict(obj.nodes[n])) for n in nodes}
     eattr = {e: copy.deepcopy(dict(obj.edges[e])) for e in edges}
     net = copy.deepcopy(dict(obj._net_attr))
+    # the same relation as the nodes report it: two networks are the same only if both sides agree
+    try:
+        if is_directed(obj):
+            ms = {n: tuple(frozenset(x) for x in obj.nodes.dimemberships(n)) for n in nodes}
+        else:
+            ms = {n: frozenset(obj.nodes.memberships(n)) for n in nodes}
+    except Exception as e:  # noqa: BLE001 - a corrupted node table: reported as a difference by every comparison
+        ms = {"unreadable": type(e).__name__}
     return {"cls": type(obj).__name__, "nodes": nodes, "edges": edges, "members": mem, "nattr": nattr,
-            "eattr": eattr, "net": net}
+            "eattr": eattr, "net": net, "memberships": ms}
+
+
+def memberships_from_members(cls, nodes, members):
+    """What the node side must report, given the edge side (used for reference-model states, which keep one table)."""
+    if cls == "DiHypergraph":
+        out = {n: [set(), set()] for n in nodes}
+        for e, (t, h) in members.items():
+            for n in t:
+                out.setdefault(n, [set(), set()])[1].add(e)  # tail member -> out-membership
+            for n in h:
+                out.setdefault(n, [set(), set()])[0].add(e)  # head member -> in-membership
+        return {n: (frozenset(a), frozenset(b)) for n, (a, b) in out.items()}
+    out = {n: set() for n in nodes}
+    for e, m in members.items():
+        for n in m:
+            out.setdefault(n, set()).add(e)
+    return {n: frozenset(v) for n, v in out.items()}
 
 
 def snap_equal(a, b, ordered=True):
@@ -118,14 +143,15 @@ def snap_equal(a, b, ordered=True):
             return False
         if sorted(map(repr, a["edges"])) != sorted(map(repr, b["edges"])):
             return False
-    return a["members"] == b["members"] and a["nattr"] == b["nattr"] and a["eattr"] == b["eattr"] and a["net"] == b["net"]
+    return (a["members"] == b["members"] and a["nattr"] == b["nattr"] and a["eattr"] == b["eattr"] and a["net"] == b["net"]
+            and a.get("memberships") == b.get("memberships"))
 
 
 def snap_diff(a, b):
     out = []
-    for k in ("cls", "nodes", "edges", "members", "nattr", "eattr", "net"):
-        if a[k] != b[k]:
-            out.append(f"{k}: {a[k]!r} != {b[k]!r}")
+    for k in ("cls", "nodes", "edges", "members", "nattr", "eattr", "net", "memberships"):
+        if a.get(k) != b.get(k):
+            out.append(f"{k}: {a.get(k)!r} != {b.get(k)!r}")
     return "; ".join(out)[:600]
 
 
